@@ -915,6 +915,7 @@ func AddClutter(t *tape.Tape, a *GConf) []string {
 				// filter ACL -> generated-looking group.
 				a.Groups = append(a.Groups, GGroup{"mfg-DRC-0", []GAddr{{Kind: "host", Val: "10.77.0.9"}}})
 				a.ACLs = append(a.ACLs, GACL{Name: "mfilter-DRC-0", Lines: []GACE{
+					{Permit: true, Proto: "tcp", Src: GAddr{Kind: "host", Val: "10.77.0.3"}, Dst: GAddr{Kind: "any"}, Port: "eq 22"},
 					{Permit: true, Proto: "ip", Src: GAddr{Kind: "group", Val: "mfg-DRC-0"}, Dst: GAddr{Kind: "any"}}}})
 				a.Clutter = append(a.Clutter,
 					&cisco.Obj{Head: "group-policy MANUAL internal"},
@@ -955,6 +956,12 @@ func AddClutter(t *tape.Tape, a *GConf) []string {
 			a.ACLs = append(a.ACLs, GACL{Name: "manual_acl", Lines: []GACE{
 				{Permit: true, Proto: "ip", Src: GAddr{Kind: "host", Val: "10.77.0.2"}, Dst: GAddr{Kind: "any"}}}})
 			what = append(what, "unused untagged ACL")
+		}
+		if t.Next(12) == 0 {
+			// A dangling reference: the tool cannot parse this configuration.
+			a.Clutter = append(a.Clutter, &cisco.Obj{Head: "interface Tunnel9", Mode: true,
+				Subs: []string{"ip address 10.88.0.1 255.255.255.252", "crypto map MISSING"}})
+			what = append(what, "interface with a crypto map that is not defined (unparsable for the tool)")
 		}
 		if t.Next(2) == 0 {
 			a.Routes = append(a.Routes, GRoute{VRF: "othervrf", Dst: "10.55.0.0", Bits: 16, Hop: "10.9.0.9"})
